@@ -208,4 +208,44 @@ class Spec:
             return z3.Implies(z3.And(lo <= k, k < hi), body(k))
         k = fresh("q_" + name, IntS)
         b = body(k)
+        pats = select_patterns(b, k)
+        if pats:
+            return z3.ForAll([k], z3.Implies(z3.And(lo <= k, k < hi), b), patterns=pats)
         return z3.ForAll([k], z3.Implies(z3.And(lo <= k, k < hi), b))
+
+
+def select_patterns(body, k):
+    """triggers in the style of the array property fragment: the array reads  A[k]  of the body (A free of k).
+    Deliberately NOT spec-function applications such as psum(a, k): with a body that mentions psum(a, k+1) those
+    would form a matching loop."""
+    found = {}
+    stack = [body]
+    seen = set()
+    while stack:
+        x = stack.pop()
+        if z3.is_quantifier(x):
+            stack.append(x.body())
+            continue
+        if not z3.is_app(x):
+            continue
+        i = x.get_id()
+        if i in seen:
+            continue
+        seen.add(i)
+        if x.decl().kind() == z3.Z3_OP_SELECT and x.arg(1).eq(k) and not _mentions(x.arg(0), k):
+            found[i] = x
+        stack.extend(x.children())
+    return list(found.values())
+
+
+def _mentions(e, k):
+    stack = [e]
+    while stack:
+        x = stack.pop()
+        if x.eq(k):
+            return True
+        if z3.is_app(x):
+            stack.extend(x.children())
+        elif z3.is_quantifier(x):
+            stack.append(x.body())
+    return False
